@@ -51,6 +51,7 @@ Record etables := {
   x_max : N;
   x_norm : list (N * N); x_valid : list N; x_ident : list (N * N); x_scheme : list (N * N);
   x_setch : list (N * list (N * N)); x_tel : N;
+  x_urnchan : list (N * N);                            (* raw URN -> 1 + channel its query names; absent: none *)
   x_cansend : list N; x_supports : list (N * N);       (* (channel, scheme) pairs *)
   x_ftypes : list ftype;
   x_pnum : list (text * N); x_pdt : list (text * N);
@@ -74,6 +75,7 @@ Definition mk_env (x : etables) : menv :=
      urn_identity := lookupN (x_ident x);
      urn_scheme := lookupN (x_scheme x);
      urn_set_channel := lookup_setch (x_setch x);
+     urn_channel := fun u => match lookupN (x_urnchan x) u with 0 => None | k => Some (k - 1) end;
      tel_scheme := x_tel x;
      chan_can_send := fun k => memN k (x_cansend x);
      chan_supports := fun k s => existsb (fun p => N.eqb (fst p) k && N.eqb (snd p) s) (x_supports x);
@@ -140,7 +142,8 @@ Definition check_m (k : mcase) : bool :=
   let '(c2, evs2, m2) := apply E (k_fresh k + 1) (k_mod k) c1 in
   contact_obs_eqb c1 (k_o_contact k) && events_eqb evs1 (k_o_events k) && Bool.eqb m1 (k_o_modified k)
   && contact_obs_eqb c2 (k_o_contact2 k) && events_eqb evs2 (k_o_events2 k) && Bool.eqb m2 (k_o_modified2 k)
-  && mod_env_ok E (k_mod k) (k_contact k) && tables_in_fragment (k_tables k).
+  && mod_env_ok E (k_mod k) (k_contact k) && tables_in_fragment (k_tables k)
+  && chan_ok_b E (k_contact k) && chan_env_ok E (k_mod k) (k_contact k) && chan_ok_b E c1 && chan_ok_b E c2.
 
 (* ---- a sprint: the kind of engine call and the modifiers of the executed actions, in order ------------ *)
 Record scase := {
